@@ -586,6 +586,13 @@ func (u *Unit) evalCall(e *SExpr, env *Env) Val {
 		// call-history flag set by calls to functions whose name contains the argument
 		name := e.Args[0].Name
 		var ts []Term
+		if len(e.Args) > 1 {
+			// called(Name, k): the k-th call site (source order) of Name
+			if t, ok := env.st.ghostCalled[fmt.Sprintf("called:%s#%s", name, e.Args[1].Name)]; ok {
+				return Val{T: t}
+			}
+			return Val{T: tFalse}
+		}
 		for k, t := range env.st.ghostCalled {
 			if strings.Contains(k, name) {
 				ts = append(ts, t)
@@ -672,6 +679,21 @@ func (u *Unit) evalCall(e *SExpr, env *Env) Val {
 		}
 		_, dh, _, _ := u.mapHeaps(env.st, mt)
 		return Val{T: and(not(eq(m.T, intLit(0))), sel(sel(dh, m.T), u.termOf(k)))}
+	case "othermaps":
+		// othermaps(m): every map of m's type other than m has the content it had at entry
+		m := u.eval(e.Args[0], env)
+		if m.Typ == nil {
+			u.specFail("othermaps() of untyped map")
+		}
+		mt, ok := m.Typ.Underlying().(*types.Map)
+		if !ok {
+			u.specFail("othermaps() of %s", m.Typ)
+		}
+		_, dh, _, vh := u.mapHeaps(env.st, mt)
+		_, dh0, _, vh0 := u.mapHeaps(env.old, mt)
+		r := Term{"omr", "Int"}
+		return Val{T: Term{fmt.Sprintf("(forall ((omr Int)) (=> (not (= omr %s)) (and (= %s %s) (= %s %s))))", m.T.S,
+			sel(dh, r).S, sel(dh0, r).S, sel(vh, r).S, sel(vh0, r).S), "Bool"}}
 	case "typeis":
 		// typeis(x, "pkg/path.T") : dynamic type test on an interface value
 		x := u.eval(e.Args[0], env)
